@@ -212,3 +212,58 @@ def install(E):
     for t in ('i64', 'isize', 'i32', 'usize', 'u64'):
         S['core::num::<impl %s>::saturating_add' % t] = sat(1)
         S['core::num::<impl %s>::saturating_sub' % t] = sat(-1)
+
+    # ---- RefCell / HashMap (unique table `nodes`, BDDSet.bdd) ----
+    def cell_content(I, cell, e, inner_ty):
+        if not isinstance(cell, VCell): raise Undecidable('RefCell method on %r' % (cell,), e['loc'])
+        if cell.key not in I.cells:
+            cls = ty_class(inner_ty, I.symparams) if inner_ty is not None else ('opaque',)
+            I.cells[cell.key] = I.fresh(cls, ('cellval', cell.key), inner_ty)
+        return I.cells[cell.key]
+    def ref_inner(e):
+        t = e['ty']
+        if t['k'] == 'Adt' and t['args']: return t['args'][0]
+        return None
+    def cell_borrow(I, args, e, c):
+        I.events.append(('cell_borrow', args[0].key if isinstance(args[0], VCell) else None, False, e['loc']))
+        return cell_content(I, args[0], e, ref_inner(e))
+    def cell_borrow_mut(I, args, e, c):
+        I.events.append(('cell_borrow', args[0].key if isinstance(args[0], VCell) else None, True, e['loc']))
+        return cell_content(I, args[0], e, ref_inner(e))
+    def cell_replace(I, args, e, c):
+        cell, v = args
+        old = cell_content(I, cell, e, e['ty'])
+        I.cells[cell.key] = v
+        I.events.append(('cell_write', cell.key, I.term_of(v), e['loc']))
+        return old
+    def cell_new(I, args, e, c):
+        k = ('newcell', e['loc'])
+        I.cells[k] = args[0]
+        return VCell(k)
+    S['std::cell::RefCell::borrow'] = cell_borrow
+    S['std::cell::RefCell::borrow_mut'] = cell_borrow_mut
+    S['std::cell::RefCell::replace'] = cell_replace
+    S['std::cell::RefCell::new'] = cell_new
+
+    def hm_get(I, args, e, c):
+        table, key = args
+        if not isinstance(key, VBdd): raise Undecidable('HashMap::get with key %r' % (key,), e['loc'])
+        kt = I.W.rep(key.term)
+        I.events.append(('table_get', I.term_of(table), kt, e['loc']))
+        if kt[0] == 'leaf':
+            # R2: the table always holds both leaves (seeded by new(), never removed: rules E2/E3)
+            return VOption('some', VBdd(kt))
+        # axiom key == *value (rule E2): a hit is structurally the key
+        return VOption('opaque', term=('get', I.term_of(table), kt), mk=lambda t, kt=kt: VBdd(kt))
+    S['std::collections::HashMap::get'] = hm_get
+    def hm_insert(I, args, e, c):
+        table, k, v = args
+        I.events.append(('table_insert', I.term_of(table), I.term_of(k), I.term_of(v), e['loc']))
+        return VOpaque(('insert-result', e['loc']))
+    S['std::collections::HashMap::insert'] = hm_insert
+    def hm_len(I, args, e, c): return VInt(Lin.var(('int', 'len(%s)' % show_key(I.term_of(args[0])))))
+    S['std::collections::HashMap::len'] = hm_len
+    def default(I, args, e, c):
+        cls = ty_class(e['ty'], I.symparams)
+        return I.fresh(cls, ('default', e['loc']), e['ty'])
+    S['trait:std::default::Default::default'] = default
